@@ -142,6 +142,35 @@ theorem deadline_armed_once_loses_the_tail_counterexample :
     serveTimedOnce 2000 0 [550, 550, 550, 550, 550] = 3 ∧ serveTimed 2000 0 [550, 550, 550, 550, 550] = 5 := by
   decide
 
+/-- **A connection that never idles longer than the timeout is never cut, however old it is**: with
+both deadlines re-armed before every `handle`, if every gap + service time stays within the timeout
+all exchanges are served - the deadline in force when a response is written was set after the
+previous exchange ended, never at accept time. -/
+theorem busy_connection_is_never_cut (timeout now : Nat) (xs : List (Nat × Nat))
+    (h : ∀ x ∈ xs, x.1 + x.2 ≤ timeout) : serveBusy timeout now xs = xs.length := by
+  induction xs generalizing now with
+  | nil => rfl
+  | cons x r ih =>
+    obtain ⟨g, l⟩ := x
+    have hx : g + l ≤ timeout := h (g, l) (by simp)
+    have : now + g + l ≤ now + timeout := by omega
+    simp only [serveBusy, this, if_true, List.length_cons]
+    rw [ih _ (fun y hy => h y (by simp [hy]))]; omega
+
+/-- The deadline under which exchange `k` is written was set when exchange `k` began to be waited
+for: `serveBusy` re-arms from `now`, which only moves forward. -/
+theorem write_deadline_is_set_after_the_previous_exchange (timeout now g l : Nat) (rest : List (Nat × Nat))
+    (h : g + l ≤ timeout) :
+    serveBusy timeout now ((g, l) :: rest) = 1 + serveBusy timeout (now + g + l) rest := by
+  have : now + g + l ≤ now + timeout := by omega
+  simp [serveBusy, this]
+
+/-- What the property excludes (test): a write deadline left at accept time + timeout cuts a busy
+tunnel once it is older than the timeout (0.8 s timeout, a request every 0.3 s). -/
+theorem stale_write_deadline_cuts_a_busy_connection_counterexample :
+    serveBusyReadOnly 800 800 0 [(300, 10), (300, 10), (300, 10), (300, 10), (300, 10)] = 2 ∧
+    serveBusy 800 0 [(300, 10), (300, 10), (300, 10), (300, 10), (300, 10)] = 5 := by decide
+
 /-! ### What is written -/
 
 theorem containsToken_head (t : Bytes) (rest : List Bytes) (h : valueContainsToken t t = true) :
